@@ -432,6 +432,11 @@ func HasMeta(pat string, mode Mode) bool {
 			i++
 		case '*', '?':
 			return true
+		case '+', '@', '!':
+			// an extended operator such as @(a|b) can match several strings
+			if strings.HasPrefix(pat[i+1:], "(") {
+				return true
+			}
 		case '[':
 			openBracket = true
 		case ']':
@@ -454,21 +459,31 @@ func HasMeta(pat string, mode Mode) bool {
 func QuoteMeta(pat string, mode Mode) string {
 	needsEscaping := false
 loop:
-	for _, r := range pat {
+	for i, r := range pat {
 		switch r {
 		case '*', '?', '[', '\\':
 			needsEscaping = true
 			break loop
+		case '+', '@', '!':
+			// the start of an extended operator such as @(a|b)
+			if strings.HasPrefix(pat[i+1:], "(") {
+				needsEscaping = true
+				break loop
+			}
 		}
 	}
 	if !needsEscaping { // short-cut without a string copy
 		return pat
 	}
 	var sb strings.Builder
-	for _, r := range pat {
+	for i, r := range pat {
 		switch r {
 		case '*', '?', '[', '\\':
 			sb.WriteByte('\\')
+		case '+', '@', '!':
+			if strings.HasPrefix(pat[i+1:], "(") {
+				sb.WriteByte('\\')
+			}
 		}
 		sb.WriteRune(r)
 	}
